@@ -25,6 +25,10 @@ claimed = {
    text='Enumerated interrupt delivery points: for 8 loop shapes Interp.Interrupt is delivered before every executed statement (from the evaluating goroutine, from another goroutine, doubled, from inside a compiled call, with Ctrl+C-enters-debugger, between evaluations). The executor must take the interrupt within 64 executed statements (else the seam aborts the run and reports it), the evaluation must end with the interrupt panic (or enter the debugger), the next evaluation must not see a stale flag, and the C12 battery must equal a fresh interpreter.',
    note='Runs without the race detector (the async flag store is an intentional benign race). Bound of 64 statements is a budget from the property text. Fixed loop shapes only.',
    technique='deterministic simulation: exhaustive interrupt-point enumeration through the statement seam + bounded-progress monitor + battery vs fresh interpreter'),
+ 'C19': dict(level='exploration', design='3.9',
+   text='A second interactive party is simulated: at every debugger stop a simulated user draws the next command (step/next/finish/continue and abbreviations, empty line = repeat, print, vars, backtrace, unknown command, end of input) from the choice list, through (A) the real fast/debug.Debugger reading a simulated command stream and writing to a captured Stdout or (B) a direct fast.Debugger implementation. The statement seam records every executed statement (call depth, line) of the same run as ground truth; a stop-rule model replays stops, commands and statements in order and must agree; the program\'s results must equal the undebugged run and the native twin (transparency); runaway sessions are cut by a statement budget and reported.',
+   note='One fixed program template with seeded behaviour. After end of input on the command stream the debugger continues (documented). Trusted: the Fileset line mapping used to match stops to statements.',
+   technique='deterministic simulation: simulated interactive user on the debugger command stream + statement-level ground truth + stop-rule reference model'),
  'C26': dict(level='exploration', design='3.10',
    text='Seeded streams assembled from statement templates whose token structure and statement boundaries are known by construction, delivered through a simulated byte source (bufio over 1..7-byte fragments with zero-byte reads, a one-line-per-call line source, whole buffer in one read) with injected faults (EOF at an arbitrary byte biased into strings/comments/open brackets, non-EOF read error at an arbitrary byte followed or not by more data, missing final newline, CRLF, #! first line). Oracles: chunks concatenate to exactly the bytes delivered (with #! -> //), every chunk ends at a constructed statement boundary (never inside a token or open bracket, never cutting a continued statement), every chunk parses on its own, the chunking is identical under every delivery schedule, and the EOF error kind tells whether brackets were open.',
    note='Templates are a fixed alphabet (71 statement shapes); standard-library files are not used. A line source returning several lines per call is outside the Readline contract both real implementations follow and is not simulated. After an injected non-EOF error nothing is required of the rest of the stream.',
